@@ -139,3 +139,40 @@ theorem pinned_upgrade_reverts_password :
     (updateUser st [97] [1]).map (·.users) = some [⟨[97], false, [1]⟩] := by decide
 
 end Whawty.Lin.C11
+
+namespace Whawty.Lin.C11
+open Whawty Whawty.WebApi Whawty.Lin
+
+/-- Soundness of the checker the driver runs on real histories: an accepted history has a
+    linearization (in the sense of `validLin_spec`) whose final state is accepted by `final` —
+    the driver passes "equals the store content observed once the agent was idle again". The
+    memoised search itself is untrusted: its answer is re-validated. -/
+theorem linCheckFinal_sound (h : List Op) (s0 : Spec) (final : Spec → Bool) (order : List Nat) (s : Spec)
+    (hc : linCheckFinal h s0 final = some (order, s)) : validLin h s0 order = some s ∧ final s = true := by
+  unfold linCheckFinal at hc
+  split at hc
+  · simp at hc
+  · rename_i o _ _
+    split at hc
+    · rename_i s' hv
+      split at hc
+      · rename_i hf
+        injection hc with hc
+        injection hc with h1 h2
+        subst h1; subst h2
+        exact ⟨hv, hf⟩
+      · simp at hc
+    · simp at hc
+
+/-- Hence: every operation is in the order, real time is respected, every response is the
+    sequential one, and the state reached is the observed idle state. -/
+theorem linCheckFinal_spec (h : List Op) (s0 : Spec) (final : Spec → Bool) (order : List Nat) (s : Spec)
+    (hc : linCheckFinal h s0 final = some (order, s)) :
+    order.length = h.length ∧ (∀ i, i < h.length → i ∈ order) ∧
+    (∀ p q, p < q → q < order.length → ∀ a b, h[order[p]!]? = some a → h[order[q]!]? = some b → ¬ b.res < a.inv) ∧
+    replay h s0 order = some s ∧ final s = true := by
+  obtain ⟨hv, hf⟩ := linCheckFinal_sound h s0 final order s hc
+  obtain ⟨a, b, c, d⟩ := validLin_spec h s0 s order hv
+  exact ⟨a, b, c, d, hf⟩
+
+end Whawty.Lin.C11
